@@ -2,6 +2,7 @@ package checks
 
 import (
 	"fmt"
+	"os"
 
 	"verifharness/sim"
 )
@@ -21,3 +22,5 @@ func wireTail(lg []sim.WireEvent, n int) []string {
 	}
 	return out
 }
+
+func getenv(k string) string { return os.Getenv(k) }
